@@ -23,12 +23,17 @@ Apply(o, mem, store, healthy) ==
          IF o.mid \in DOMAIN mem THEN [res |-> "exists", walks |-> NoWalks, mem |-> mem, store |-> store]
          ELSE IF healthy THEN [res |-> "ok", walks |-> NoWalks, mem |-> With(mem, o.mid, <<>>), store |-> With(store, o.mid, <<>>)]
          ELSE [res |-> "error", walks |-> NoWalks, mem |-> mem, store |-> store]
+    [] o.kind = "add2" ->   \* a machine with the other specification (it tags what it records); marked by its first log entry
+         IF o.mid \in DOMAIN mem THEN [res |-> "exists", walks |-> NoWalks, mem |-> mem, store |-> store]
+         ELSE IF healthy THEN [res |-> "ok", walks |-> NoWalks, mem |-> With(mem, o.mid, <<"#2">>), store |-> With(store, o.mid, <<"#2">>)]
+         ELSE [res |-> "error", walks |-> NoWalks, mem |-> mem, store |-> store]
     [] o.kind = "rem" ->
          IF healthy THEN [res |-> "ok", walks |-> NoWalks, mem |-> Without(mem, o.mid), store |-> Without(store, o.mid)]
          ELSE [res |-> "error", walks |-> NoWalks, mem |-> mem, store |-> store]
     [] o.kind = "proc" ->
          LET ts == Targets(o, mem)
-             ws == [t \in ts |-> [from |-> mem[t], to |-> Append(mem[t], o.msg)]]
+             Rec(t) == IF mem[t] # <<>> /\ mem[t][1] = "#2" THEN "2:" \o o.msg ELSE o.msg
+             ws == [t \in ts |-> [from |-> mem[t], to |-> Append(mem[t], Rec(t))]]
          IN IF healthy \/ ts = {}
             THEN [res |-> "ok", walks |-> ws,
                   mem |-> [t \in DOMAIN mem |-> IF t \in ts THEN ws[t].to ELSE mem[t]],
